@@ -62,6 +62,11 @@ def r1_who_may_exec(R) -> None:
                     R.violation(q, 'exec-namespace:default', f'`{text(n)[:60]}` runs in the caller\'s own namespace', where=where)
                 else:
                     sx = f.etext(node[0].id, sink)
+                    if isinstance(sink, ast.Name):
+                        # the object the local names (items stored into it afterwards do not change which object it is)
+                        for (_s, dv) in f.lf.values_reaching(node[0].id, sink.id):
+                            if dv is not None and text(dv) in ('globals()', 'vars()', 'sys.modules[__name__].__dict__'):
+                                sx = text(dv)
                     R.check(sx not in ('globals()', 'vars()', 'sys.modules[__name__].__dict__'), q, f'exec-namespace:{sx[:30]}',
                             'the executed class definition binds its names in a scratch namespace',
                             f'`{text(n)[:60]}` binds the names the definition creates (`Model`, ...) in `{sx}`: every build writes into the module\'s globals', where=where)
